@@ -48,6 +48,11 @@ impl RxCtrState {
         }
     }
 
+    /// Whether `msg_ctr` is the highest counter received so far.
+    pub fn is_highest(&self, msg_ctr: u32) -> bool {
+        self.synced && self.max_ctr == msg_ctr
+    }
+
     fn contains(&self, bit_number: u32) -> bool {
         (self.ctr_bitmap & (1 << bit_number)) != 0
     }
